@@ -44,6 +44,10 @@ type Faults struct {
 	// TearSibling: the process dies with the complete new contents sitting under this name beside the target and
 	// the target itself untouched: what a kill between "write temporary file" and "rename" leaves behind
 	TearSibling string `json:"tear_sibling,omitempty"`
+	// FsizeLimit (level L3 only): the child process runs with RLIMIT_FSIZE = this many bytes, so every file it
+	// grows beyond that gets a short write followed by EFBIG: a full disk or an exhausted quota, struck inside
+	// whatever write is in flight (cache file, spokfile under --fmt / --init, .gitignore). 0 = no limit.
+	FsizeLimit int `json:"fsize_limit,omitempty"`
 	// OpenErr / ReadErr: path (absolute) -> errno name.
 	OpenErr map[string]string `json:"open_err,omitempty"`
 	ReadErr map[string]string `json:"read_err,omitempty"`
